@@ -16,6 +16,7 @@
 """
 Service exception handling (WMS exceptions, XML, in_image, etc.).
 """
+import re
 from html import escape
 
 from mapproxy.response import Response
@@ -84,6 +85,17 @@ def _not_implemented(*args, **kw):
     raise NotImplementedError()
 
 
+_invalid_xml_chars = re.compile('[\x00-\x08\x0b\x0c\x0e-\x1f\ufffe\uffff]')
+
+
+def _remove_invalid_xml_chars(msg):
+    """
+    Remove characters that are not allowed in XML documents (e.g. control
+    characters from request parameters).
+    """
+    return _invalid_xml_chars.sub('', msg)
+
+
 class XMLExceptionHandler(ExceptionHandler):
     """
     Mixin class for tempita-based template renderer.
@@ -132,7 +144,7 @@ class XMLExceptionHandler(ExceptionHandler):
             status_code = self.status_codes.get(request_error.code, self.status_code)
 
         # escape &<> in error message (e.g. URL params)
-        msg = escape(request_error.msg)
+        msg = escape(_remove_invalid_xml_chars(request_error.msg))
         result = self.template.substitute(exception=msg,
                                           code=request_error.code)
         return Response(result, mimetype=self.mimetype, content_type=self.content_type,
@@ -167,7 +179,7 @@ class OWSExceptionHandler(XMLExceptionHandler):
             status_code = self.status_codes.get(request_error.code, self.status_code)
 
         # escape &<> in error message (e.g. URL params)
-        msg = escape(request_error.msg)
+        msg = escape(_remove_invalid_xml_chars(request_error.msg))
         result = self.template.substitute(exception=msg,
                                           code=request_error.code, locator=request_error.locator)
         return Response(result, mimetype=self.mimetype, content_type=self.content_type,
